@@ -186,7 +186,7 @@ PROPS = {
         "inline-asm template data-flow analysis; abstract interpretation over the sign domain with polynomial result terms",
     },
     "C02": {
-        "clauses": [fam("Mul"), signed("Mul"), both(r3.check_underflow_asserts), r3.check_add2_carry_used, r9.check_carry_exits, r8.check_cost_general, r8.check_shorter_first, r5check.check_arithmetic({"Mul"}, 15), count_ok("biguint/multiplication.rs", "bigint/multiplication.rs", floor=40), r1.check_biguint_normal_form, r5check.check_division_methods, selftest("R2-count-narrowed"), r3.check_panic_site_table, r3.check_operand_overflow, selftest("R3c-operand-overflow", "R3c-operand-overflow-abs")],
+        "clauses": [fam("Mul"), signed("Mul"), both(r3.check_underflow_asserts), r3.check_add2_carry_used, r9.check_carry_exits, r8.check_mac3_accumulates, r8.check_cost_general, r8.check_shorter_first, r5check.check_arithmetic({"Mul"}, 15), count_ok("biguint/multiplication.rs", "bigint/multiplication.rs", floor=40), r1.check_biguint_normal_form, r5check.check_division_methods, selftest("R2-count-narrowed"), r3.check_panic_site_table, r3.check_operand_overflow, selftest("R3c-operand-overflow", "R3c-operand-overflow-abs")],
         "not_decided": "temporary sizing, the Karatsuba/Toom-3 algebra (evaluation points, interpolation), mac_with_carry arithmetic, the low-zero stripping arithmetic (all "
         "value-level)",
         "level_text": "Decides: all Mul operator forms forward (operands in either order only because * is commutative) or are reviewed implementations with the sign table "
@@ -194,7 +194,7 @@ PROPS = {
         "site drops a carry; the regime dispatch read from mac3 has a base case, passes the shorter operand first and yields a cost recurrence inside the "
         "documented bounds; the multiplication never reaches the multi-digit division; results escape in canonical form. Also: new explicit panic sites / unchecked negations in the multiplication code are reported (a native-integer fast path that can overflow).",
         "technique": "MIR dataflow over operator impls; CFG dominance of the carry assertion; regime/recurrence extraction from mac3 (dominance regions + call-graph "
-        "reachability); abstract interpretation over the sign domain",
+        "reachability); abstract interpretation over the sign domain; derived-window analysis of the accumulator parameter (who may write it, and how)",
     },
     "C03": {
         "clauses": [fam("Div", "Rem"), signed("Div", "Rem"), both(r3.check_div_guards), r3.check_checked_div, r3.check_division_sites, r5check.check_arithmetic({"Div", "Rem"}, 30), r5check.check_division_methods, count_ok("biguint/division.rs", "bigint/division.rs", floor=90), r1.check_biguint_normal_form, selftest("R2-count-narrowed"), r3.check_panic_site_table, r3.check_operand_overflow, selftest("R3c-operand-overflow", "R3c-operand-overflow-abs"), _debug_effects, r3.check_division_scaling],
@@ -413,7 +413,7 @@ for _p in ("C06", "C11"):
 # what the clauses added in the eighth seeding round decide, per property (appended to the level texts above)
 _R8_TEXT = {
     "C01": " Also (round 8): a digit loop that threads a carry or borrow leaves before the last digit only on a condition computed from every carry it threads that no later loop keeps propagating; debug-only code in the add/sub functions has no effect on state.",
-    "C02": " Also (round 8): the carry loops of mac_digit/scalar_mul and of the add/sub helpers leave early only on every pending carry; debug-only code in the multiplication functions has no effect on state.",
+    "C02": " Also (round 8): the carry loops of mac_digit/scalar_mul and of the add/sub helpers leave early only on every pending carry; debug-only code in the multiplication functions has no effect on state; inside mac3 no window of the accumulator is the receiver of an overwriting slice operation (the product is added to what the accumulator holds).",
     "C05": " Also (round 8): debug-only code in the modular functions has no effect on state (a call folded into debug_assert! is skipped in release builds).",
     "C06": " Also (round 8): in the radix parser a value computed differently with and without std (the size estimate) reaches only capacity requests, never a branch that changes the digits.",
     "C07": " Also (round 8): the rounding comparison of >> may be made in the amount's own type - a failed narrowing of the trailing-zero count then means no rounding (decided for every amount type); the two's-complement carry loops leave early only on every pending carry.",
